@@ -255,6 +255,34 @@ def has_tokens(line, impl, mobs):
     return False
 
 
+def mapimg_classify(line, impl, mobs, extra):
+    """`mapimg` cases (C06): the internal tables before / after map_connection_ids_from_iter, read from the images, against
+    the abstract model of id mapping (Model/Mapper.lean: connector layouts of all three kinds, stored mapper)."""
+    flags = pflags(extra)
+    info = {"tags": ["kind=" + flags.get("KIND", "?"), "pre=" + flags.get("PRE", "?"), "impl=" + impl.split()[0]],
+            "nontrivial": impl.startswith("ok")}
+    if impl.split()[0] == "panic":
+        info["prop_fail"] = "mapping-panics"
+        info["why"] = "map_connection_ids_from_iter (or writing the mapped dictionary) panicked"
+    elif impl.startswith("ok") and mobs.split()[0] == "err":
+        # theorem parse_ok_iff / mapIds_total: the model returns err exactly for a mapping that mentions 0, repeats or omits
+        # an id, or has the wrong length
+        info["prop_fail"] = "malformed-mapping-accepted"
+        info["why"] = "a mapping that mentions id 0, repeats or omits an id, or has the wrong length was applied"
+    elif impl.split()[0] == "err" and mobs.startswith("ok"):
+        info["prop_fail"] = "valid-mapping-rejected"
+        info["why"] = "a valid pair of id permutations was rejected"
+    elif impl != mobs:
+        info["corr_fail"] = "tables of the mapped dictionary differ from the abstract mapper model: " + mobs
+    return info
+
+
+def c06_streams(tier, seed):
+    q = tier == "quick"
+    return [(["tok", "c06", str(seed), "300" if q else "10000"], tok2_classifier("C06", has_dops)),
+            (["mapimg", str(seed + 2), "36" if q else "900"], mapimg_classify)]
+
+
 def tok_streams(profile, nq, nt, classify):
     def streams(tier, seed):
         n = nq if tier == "quick" else nt
@@ -957,7 +985,7 @@ PROPS = {
                      "Vibrato.Refine.applyOps_commutes", "Vibrato.Refine.map_compose_refined", "Vibrato.Refine.history_costs_refined",
                      "Vibrato.Refine.user_translated_by_all", "Vibrato.Refine.history_tokenize_refined",
                      "Vibrato.Refine.mapperAgree_true"],
-        "streams": with_cli(tok_streams("c06", 300, 10000, tok2_classifier("C06", has_dops)), {}, ("map-", "reorder-map"), 12, 400),
+        "streams": with_cli(c06_streams, {}, ("map-", "reorder-map"), 12, 400),
         "rule": "random histories of {map (valid permutations and malformed iterators: 0, duplicate, omission, short, long), "
                 "load user lexicon (incl. out-of-range ids), clear, write/read} followed by tokenization; tokens must equal those of "
                 "the unmapped dictionary with the same user lexicon up to ids; non-trivial = at least one dictionary operation and tokens",
